@@ -2,6 +2,8 @@ package checks
 
 import (
 	"fmt"
+	"os"
+	"strings"
 	"sync"
 
 	"verif/tool/corpus"
@@ -46,6 +48,15 @@ func gCorpus(c *Ctx, mode int) []*corpus.Spec {
 		out = append(out, corpus.Random(c.Seed, 6)...)
 	} else {
 		out = append(out, corpus.Random(c.Seed, 2)...)
+	}
+	if only := os.Getenv("VERIF_ONLY"); only != "" {
+		var f []*corpus.Spec
+		for _, s := range out {
+			if strings.Contains(","+only+",", ","+s.Name+",") {
+				f = append(f, s)
+			}
+		}
+		return f
 	}
 	return out
 }
